@@ -157,6 +157,12 @@ MixedContentModel::validateContent( QName** const         children
             if (curChild->getURI() == XMLElementDecl::fgPCDataElemId)
                 continue;
 
+            // more (non-text) children than the model has members
+            if (inIndex >= fCount) {
+                *indexFailingChild=outIndex;
+                return false;
+            }
+
             ContentSpecNode::NodeTypes type = fChildTypes[inIndex];
             const QName* inChild = fChildren[inIndex];
 
@@ -288,6 +294,12 @@ bool MixedContentModel::validateContentSpecial(QName** const          children
             // If its PCDATA, then we just accept that
             if (curChild->getURI() == XMLElementDecl::fgPCDataElemId)
                 continue;
+
+            // more (non-text) children than the model has members
+            if (inIndex >= fCount) {
+                *indexFailingChild=outIndex;
+                return false;
+            }
 
             ContentSpecNode::NodeTypes type = fChildTypes[inIndex];
             QName* inChild = fChildren[inIndex];
